@@ -88,19 +88,40 @@ theorem C16_symmetric (m : Manifest) (h : Host) (hwf : h.WF) (hf : OwnedFresh h 
 theorem C16_idempotent (m : Manifest) (h : Host) (hwf : h.WF) :
     finish m (finish m h) = finish m h := by
   unfold finish
+  split
+  · rfl
+  · exact cleanupNetwork_idem _ m h hwf
+
+/-- **C16 (idempotent, with the network service in the loop).** A second `finish` — whether the
+    first one released the network allocation (then the second returns at once: "already freed") or
+    was interrupted just before releasing it (then the second repeats every removal) — leaves the
+    host as the first one left it. -/
+theorem C16_idempotent_sys (r r' : Bool) (m : Manifest) (s : Sys) (hwf : s.host.WF) :
+    (sysCleanup r' m (sysCleanup r m s)).host = (sysCleanup r m s).host := by
+  unfold sysCleanup
   by_cases hs : m.shared = true
   · simp [hs]
-  · simp only [hs, Bool.false_eq_true, ↓reduceIte, cleanupNetwork]
-    have hwf' := applyUnregs_wf (finishOps m.vip m.ext m) h hwf
-    apply Host.ext'
-    · rw [applyUnregs_rules _ _ hwf', applyUnregs_rules _ _ hwf, List.filter_filter]
-      apply List.filter_congr; intro e _; simp
-    · rw [applyUnregs_specs, applyUnregs_specs, List.filter_filter]
-      apply List.filter_congr; intro e _; simp
-    · rw [applyUnregs_vring, applyUnregs_vring, List.filter_filter]
-      apply List.filter_congr; intro e _; simp
-    · rw [applyUnregs_infra, applyUnregs_infra, List.filter_filter]
-      apply List.filter_congr; intro e _; simp
+  · simp only [hs, Bool.false_eq_true, ↓reduceIte, netGet]
+    cases hf : findLive m.owner s.live with
+    | none => simp [hf]
+    | some c =>
+      simp only [Option.map_some]
+      cases r with
+      | true =>
+        have : findLive m.owner (s.live.filter (fun c => decide (c.owner ≠ m.owner))) = none :=
+          findLive_none _ _ (fun c hc => by simpa using (List.mem_filter.mp hc).2)
+        simp only [↓reduceIte, this, Option.map_none]
+      | false =>
+        simp only [Bool.false_eq_true, ↓reduceIte, hf, Option.map_some]
+        exact cleanupNetwork_idem _ m s.host hwf
+
+/-- `start` only ever appends, and only entries that link to the container's own unique name /
+    carry its own address (so it removes nothing and touches nobody else's entries). -/
+theorem C16_start_extends (m : Manifest) (h : Host) : Ext (RegOwn m.owner m.vip) h (start m h).1 := by
+  unfold start
+  split
+  · exact Ext.refl _ h
+  · exact startRegs_ext_own m h
 
 /-- **C16 (foreign, one step).** On any host whatsoever, `finish m` leaves every rule file and
     endpoint spec that links to another owner, and every IP-set entry of another address, in place
